@@ -193,6 +193,7 @@ class Exec:
         self.use_virtual = True
         self.capture = None
         self.fresh_uuids = []
+        self.fn_stack = []
         self.sort_sites = []
 
     # ============================================================== solver helpers
@@ -345,6 +346,10 @@ class Exec:
         env["__fn__"] = fv
         env.update(args)
         self.depth += 1
+        pushed = False
+        if fv.key and not isinstance(node, ast.Lambda):
+            self.fn_stack.append(fv.key)
+            pushed = True
         try:
             if isinstance(node, ast.Lambda):
                 for v, st2 in self.expr(node.body, env, st):
@@ -364,6 +369,8 @@ class Exec:
                     raise PyvcUnsupported(f"{kind} outside loop")
         finally:
             self.depth -= 1
+            if pushed:
+                self.fn_stack.pop()
 
     def block(self, stmts, env, st):
         if not stmts:
@@ -606,8 +613,8 @@ class Exec:
         Encoding: either some first index i exits (all j<i fall through), or all fall through."""
         if not (isinstance(it, Sym) and isinstance(it.ty, SeqTy)):
             raise PyvcUnsupported(f"for over {it!r} needs a loop contract")
-        ordinal = self.loop_ordinal(s, ast.For)
-        spec = self.loop_specs.get((self.cur_key, "for", ordinal))
+        ordinal = self.loop_ordinal(s, ast.For, env)
+        spec = self.loop_specs.get((self.loop_key(env), "for", ordinal))
         if spec is not None:
             yield from self.contracted_for(s, it, env, st, spec, ordinal)
             return
@@ -703,11 +710,23 @@ class Exec:
         else:
             yield ("fall", None, e2, st_x)
 
-    def loop_ordinal(self, node, kinds):
+    def loop_key(self, env=None):
+        """key of the repo function whose body is being executed (loops of transparently executed callees carry their
+        own contracts); taken from the environment, not from a dynamic stack (execution is generator based)"""
+        fv = (env or {}).get("__fn__") if env is not None else None
+        if fv is not None and getattr(fv, "key", None):
+            return fv.key
+        return self.cur_key
+
+    def loop_ordinal(self, node, kinds, env=None):
         """ordinal of `node` among the loops of the function under execution (stable under unrelated edits)"""
         fn = None
         # the innermost repo function being executed is not tracked per statement; search the verified function
-        f, modpath, cls = self.repo.func(self.cur_key) if self.cur_key else (None, None, None)
+        k_ = self.loop_key(env)
+        try:
+            f, modpath, cls = self.repo.func(k_) if k_ else (None, None, None)
+        except KeyError:
+            f = None
         if f is None:
             return None
         n = 0
@@ -722,8 +741,8 @@ class Exec:
         """while loop with a sidecar inductive invariant:
            (1) Inv holds on entry [obligation]  (2) Inv /\ guard, body => Inv [obligation per fall-through path]
            (3) continue after the loop from a havocked state with Inv /\ not guard."""
-        ordinal = self.loop_ordinal(s, ast.While)
-        spec = self.loop_specs.get((self.cur_key, "while", ordinal))
+        ordinal = self.loop_ordinal(s, ast.While, env)
+        spec = self.loop_specs.get((self.loop_key(env), "while", ordinal))
         if spec is None:
             raise PyvcUnsupported(f"while loop #{ordinal} at line {s.lineno} of {self.cur_key} needs a loop contract")
         inv = spec["invariant"]
@@ -1562,6 +1581,7 @@ class Exec:
                  n == card(coll)] + card_axioms_for([coll])
         facts.append(mem_all_indices(ks))
         facts.append(z3.ForAll([k], seq_mem_z3(ks, k) == mem(k)))
+        facts.append(mem_has_position(ks, kt.sort))
         st2 = st.assume(*facts)
         if kind in ("set", "keys"):
             yield Sym(SeqTy(kt), ks), st2
@@ -1643,6 +1663,10 @@ class Exec:
             yield from self.call_func(f, None, args, kw, st, where)
         elif isinstance(f, BoundM):
             yield from self.call_func(f.fn, f.recv, args, kw, st, where)
+        elif type(f).__name__ == "PartialV":
+            kw2 = dict(f.kw)
+            kw2.update(kw)
+            yield from self.call_value(f.fn, list(f.args) + list(args), kw2, st, where, env)
         elif isinstance(f, VirtualM):
             fn, owner = self.repo.find_method(f.root, f.name)
             bound = self.bind_params(fn, f.recv, args, kw, self.repo.classes[owner].path)
